@@ -233,6 +233,12 @@ func (c *collection) createIndex(
 
 	c.def.Version.Indexes = append(c.def.Version.Indexes, desc)
 
+	err = c.refreshIsActive(ctx)
+	if err != nil {
+		c.def.Version.Indexes = c.def.Version.Indexes[:len(c.def.Version.Indexes)-1]
+		return nil, err
+	}
+
 	err = description.SaveCollection(ctx, c.def.Version)
 	if err != nil {
 		c.def.Version.Indexes = c.def.Version.Indexes[:len(c.def.Version.Indexes)-1]
@@ -397,12 +403,32 @@ func (c *collection) dropIndex(ctx context.Context, indexName string) error {
 		}
 	}
 
-	err := description.SaveCollection(ctx, c.def.Version)
+	err := c.refreshIsActive(ctx)
 	if err != nil {
 		c.def.Version.Indexes = oldIndexes
 		return err
 	}
 
+	err = description.SaveCollection(ctx, c.def.Version)
+	if err != nil {
+		c.def.Version.Indexes = oldIndexes
+		return err
+	}
+
+	return nil
+}
+
+// refreshIsActive takes over whether this collection version is the active one from the store.
+//
+// A collection handle may be older than a switch of the active version. Saving its description
+// as it is (to record an index change) would make a version active again that no longer is, next
+// to the one that was switched to.
+func (c *collection) refreshIsActive(ctx context.Context) error {
+	stored, err := description.GetCollectionByID(ctx, c.def.Version.VersionID)
+	if err != nil {
+		return err
+	}
+	c.def.Version.IsActive = stored.IsActive
 	return nil
 }
 
